@@ -1,5 +1,5 @@
 import ChythonModel.Proofs.C08Labels
-import ChythonModel.Proofs.C08PrintBuild
+import ChythonModel.Proofs.C08Pair
 import ChythonModel.Model.SmartsFull
 import Mathlib.Data.List.Perm.Basic
 import Mathlib.Tactic.SplitIfs
@@ -708,5 +708,45 @@ theorem api_zero_constrains (kind : QKind) (c : Int) (rad : Bool) (hy rs ih he :
   rcases hal with e | m
   · cases e
   · simpa using m
+
+/-! ## 11. two atoms and a bond -/
+
+/-- **smarts_pair_roundtrip** (general in the atoms): for any two well-formed documented atoms (without map and mask, so that they
+    are numbered 1 and 2) and any documented bond token between them — none, one of `- = # : ~`, a two-element list, a negated
+    order, each optionally with `;@` / `;!@` — `smarts()` returns the two documented query atoms joined by the documented query bond -/
+theorem smarts_pair_roundtrip (d1 d2 : DocAtom) (b : DocBond) (h1 : DocWF d1 = true) (h2 : DocWF d2 = true) (hb : bondWF b)
+    (hm1 : d1.map = none ∧ d1.masked = false) (hm2 : d2.map = none ∧ d2.masked = false) :
+    smartsModel (('[' :: printDoc d1 ++ [']']) ++ (printBond b ++ ('[' :: printDoc d2 ++ [']']))) [] =
+      .ok ⟨[(1, denote d1), (2, denote d2)], [(2, 1, denoteBond b)]⟩ :=
+  smarts_pair d1 d2 b h1 h2 hb hm1 hm2
+
+/-- every bond of the enumerated documented list satisfies the side condition -/
+theorem docBonds_wf : ∀ b ∈ docBonds, bondWF b := by
+  intro b hb
+  have : docBonds.all (fun b => match b.kind with
+      | .implicit => b.ring == none
+      | .single c => bondSymbols.contains c
+      | .pair c d => bondSymbols.contains c && bondSymbols.contains d
+      | .negated c => (bondSymbols.take 4).contains c) = true := by decide +kernel
+  have hb' := List.all_eq_true.mp this b hb
+  unfold bondWF
+  cases hk : b.kind with
+  | implicit => simp only [hk] at hb'; exact beq_iff_eq.mp hb'
+  | single c => simp only [hk] at hb'; exact List.contains_iff_mem.mp hb'
+  | pair c d =>
+    simp only [hk, Bool.and_eq_true] at hb'
+    exact ⟨List.contains_iff_mem.mp hb'.1, List.contains_iff_mem.mp hb'.2⟩
+  | negated c => simp only [hk] at hb'; exact List.contains_iff_mem.mp hb'
+
+/-- **pair_match_is_documented**: an ordered pair of bonded atoms `(a1, a2)` with bond `mb` satisfies the three comparisons the
+    matcher makes for the pattern `[d1] b [d2]` exactly when `a1` has the documented meaning of `d1`, `a2` that of `d2`, and the
+    bond has a documented order and ring membership -/
+theorem pair_match_is_documented (d1 d2 : DocAtom) (b : DocBond) (h1 : DocWF d1 = true) (h2 : DocWF d2 = true)
+    (a1 a2 : MAtom) (ha1 : AWF a1) (ha2 : AWF a2) (mb : MBond) :
+    (pyEq (denote d1) a1 && pyEq (denote d2) a2 && bondEq (denoteBond b) mb) = true ↔
+      (Matches (denote d1) a1 ∧ Matches (denote d2) a2 ∧ BondMatches (denoteBond b) mb) := by
+  simp only [Bool.and_eq_true]
+  rw [eq_is_spec _ _ (denote_wf d1 h1) ha1, eq_is_spec _ _ (denote_wf d2 h2) ha2, bond_eq_is_spec]
+  exact ⟨fun h => ⟨h.1.1, h.1.2, h.2⟩, fun h => ⟨⟨h.1, h.2.1⟩, h.2.2⟩⟩
 
 end ChythonModel.Props.C08
